@@ -27,6 +27,17 @@ pub fn scheme_info<S: Sch>() -> SchemeInfo {
     SchemeInfo { key_name: S::key_name().to_vec(), pk_raw: [rlp::enc_str(&S::pub_raw(0)), rlp::enc_str(&S::pub_raw(1))] }
 }
 
+pub struct Ctx<S: Sch> {
+    pub si: SchemeInfo,
+    pub pks: [<S::K as EnrKey>::PublicKey; 2],
+}
+impl<S: Sch> Ctx<S> {
+    pub fn new() -> Self {
+        use enr::EnrKey as _;
+        Ctx { si: scheme_info::<S>(), pks: [S::mk_key(0).public(), S::mk_key(1).public()] }
+    }
+}
+
 pub const PROBE_KEYS: [&[u8]; 8] = [b"", b"a", b"client", b"id", b"ip", b"secp256k1", b"tcp", b"nope"];
 
 fn cfg_name() -> &'static str {
@@ -60,6 +71,13 @@ fn signer_rel(owner: usize, signer: usize) -> &'static str {
 /// The C05 state invariant (plus the C04 record-side round trip, C09 size clauses, C10 node id)
 /// on a record obtained with `Ok`. Returns (property, clause, detail).
 pub fn invariant<S: Sch>(e: &Enr<S::K>, obs: &Obs, expect_owner: Option<usize>) -> Vec<(&'static str, String, String)> {
+    let mut v = invariant_core::<S>(e, obs, expect_owner);
+    v.extend(invariant_state::<S>(e, obs));
+    v
+}
+
+/// Clauses evaluated on every transition.
+pub fn invariant_core<S: Sch>(e: &Enr<S::K>, obs: &Obs, expect_owner: Option<usize>) -> Vec<(&'static str, String, String)> {
     let mut v: Vec<(&'static str, String, String)> = vec![];
     let pairs: Pairs = obs.pairs.iter().cloned().collect();
     // (a) verifies, library and independent verifier
@@ -136,6 +154,13 @@ pub fn invariant<S: Sch>(e: &Enr<S::K>, obs: &Obs, expect_owner: Option<usize>) 
         Ok(Err(err)) => v.push(("C05", "(e) decoder rejects the record's own encoding".into(), err)),
         Err(p) => v.push(("C03", "decode panics on a record's own encoding".into(), p)),
     }
+    v
+}
+
+/// Clauses that depend only on the canonical state: evaluated once per distinct state (and on
+/// every record that is not expanded further).
+pub fn invariant_state<S: Sch>(e: &Enr<S::K>, obs: &Obs) -> Vec<(&'static str, String, String)> {
+    let mut v: Vec<(&'static str, String, String)> = vec![];
     if let Some(kt) = S::KT {
         match refspec::ref_decode_whole(&obs.enc, kt) {
             Verdict::Accept(p) => {
@@ -228,15 +253,16 @@ fn snapshot_diff(a: &Obs, b: &Obs) -> Vec<&'static str> {
 }
 
 /// One transition: real mutator + model + all oracles.
-pub fn transition<S: Sch>(node: &Node<S>, step: &Step, si: &SchemeInfo, faults: bool) -> TOut<S> {
+pub fn transition<S: Sch>(node: &Node<S>, step: &Step, ctx: &Ctx<S>, faults: bool) -> TOut<S> {
     let mut viols: Vec<Viol> = vec![];
     let mut classes: Vec<String> = vec![];
     let mut executions = 1u64;
+    let si = &ctx.si;
     let key = S::mk_key(step.signer);
-    let pks = [S::mk_key(0).public(), S::mk_key(1).public()];
+    let pks = &ctx.pks;
     S::arm(&key, -1, step.siglen);
     let mut e = node.enr.clone();
-    let out = real::apply(&mut e, &step.act, &key, &pks);
+    let out = real::apply(&mut e, &step.act, &key, pks);
     let n_calls = S::sign_calls(&key);
     let pred = predict(&node.m, step, si);
     let mut hist = node.hist.clone();
@@ -254,10 +280,9 @@ pub fn transition<S: Sch>(node: &Node<S>, step: &Step, si: &SchemeInfo, faults: 
         });
     };
     let after = real::observe(&e);
-    // C03: sweep every accessor on whatever the caller now holds
-    for (label, p) in real::sweep(&e, &PROBE_KEYS) {
-        push("C03", format!("{label} panics on the record held after the call"), p, &hist, &mut viols);
-    }
+    // C03: every accessor on whatever the caller now holds. Records that become new canonical
+    // states are swept once per state (state_checks); anything else is swept right here.
+    let mut need_sweep = false;
     let mut next = None;
     let mut agreed = true;
     match &out {
@@ -265,12 +290,14 @@ pub fn transition<S: Sch>(node: &Node<S>, step: &Step, si: &SchemeInfo, faults: 
             classes.push("panic".into());
             push("C03", "mutator panics".into(), p.clone(), &hist, &mut viols);
             agreed = false;
+            need_sweep = true;
         }
         ROut::Err(kind) => {
             classes.push(format!("err:{kind:?}:{}", step.act.name()));
             // C06: untouched
             let d = snapshot_diff(&node.obs, &after);
             if !d.is_empty() {
+                need_sweep = true;
                 push("C06", format!("record changed after Err({kind:?}): {}", d.join(",")), String::new(), &hist, &mut viols);
                 if after.enc.len() > 300 {
                     push("C09", "caller holds a record over 300 bytes after Err".into(), format!("{}", after.enc.len()), &hist, &mut viols);
@@ -301,7 +328,7 @@ pub fn transition<S: Sch>(node: &Node<S>, step: &Step, si: &SchemeInfo, faults: 
         ROut::Ok(ret) => {
             classes.push(format!("ok:{}", step.act.name()));
             // invariant on the record handed out, independent of the model
-            let inv = invariant::<S>(&e, &after, Some(step.signer));
+            let inv = invariant_core::<S>(&e, &after, Some(step.signer));
             let inv_bad = inv.iter().any(|(p, _, _)| *p == "C05" || *p == "C03");
             for (p, clause, detail) in inv {
                 push(p, clause, detail, &hist, &mut viols);
@@ -360,6 +387,18 @@ pub fn transition<S: Sch>(node: &Node<S>, step: &Step, si: &SchemeInfo, faults: 
             }
         }
     }
+    if matches!(out, ROut::Ok(_)) && next.is_none() {
+        // a record that is not expanded further: the per-state clauses are evaluated here
+        need_sweep = true;
+        for (p, clause, detail) in invariant_state::<S>(&e, &after) {
+            push(p, clause, detail, &hist, &mut viols);
+        }
+    }
+    if need_sweep {
+        for (label, p) in real::sweep(&e, &PROBE_KEYS) {
+            push("C03", format!("{label} panics on the record held after the call"), p, &hist, &mut viols);
+        }
+    }
     // fault enumeration: one deviation per transition, at every signing call
     if faults && S::IS_FAULT && n_calls > 0 && !matches!(out, ROut::Panic(_)) {
         for f in 0..n_calls as i64 {
@@ -367,7 +406,7 @@ pub fn transition<S: Sch>(node: &Node<S>, step: &Step, si: &SchemeInfo, faults: 
             let key2 = S::mk_key(step.signer);
             S::arm(&key2, f, step.siglen);
             let mut e2 = node.enr.clone();
-            let out2 = real::apply(&mut e2, &step.act, &key2, &pks);
+            let out2 = real::apply(&mut e2, &step.act, &key2, pks);
             let after2 = real::observe(&e2);
             classes.push(format!("fault@{f}:{}", step.act.name()));
             let clause_at = format!("signing fault at call {f}");
@@ -389,8 +428,10 @@ pub fn transition<S: Sch>(node: &Node<S>, step: &Step, si: &SchemeInfo, faults: 
                 }
                 ROut::Panic(p) => push("C03", format!("{clause_at}: mutator panics"), p, &hist, &mut viols),
             }
-            for (label, p) in real::sweep(&e2, &PROBE_KEYS) {
-                push("C03", format!("{clause_at}: {label} panics on the record held after the call"), p, &hist, &mut viols);
+            if after2 != node.obs {
+                for (label, p) in real::sweep(&e2, &PROBE_KEYS) {
+                    push("C03", format!("{clause_at}: {label} panics on the record held after the call"), p, &hist, &mut viols);
+                }
             }
         }
     }
@@ -457,7 +498,7 @@ pub struct Explore {
 
 /// Level-synchronous BFS from `roots` over `steps`.
 pub fn bfs<S: Sch>(roots: Vec<Node<S>>, steps: &[Step], ex: &Explore, rep: &mut Report) -> Vec<Node<S>> {
-    let si = scheme_info::<S>();
+    let ctx = Ctx::<S>::new();
     let mut seen: HashMap<MState, u64> = HashMap::new();
     let mut all: Vec<Node<S>> = vec![];
     let mut frontier: Vec<Node<S>> = vec![];
@@ -469,12 +510,15 @@ pub fn bfs<S: Sch>(roots: Vec<Node<S>>, steps: &[Step], ex: &Explore, rep: &mut 
     }
     rep.stats.states += frontier.len() as u64;
     rep.stats.level(format!("{}:{}:depth0:states", S::NAME, ex.label), frontier.len() as u64);
+    for n in &frontier {
+        rep.viols.extend(state_checks::<S>(n));
+    }
     let mut capped = false;
     for depth in 1..=ex.depth {
         let outs: Vec<TOut<S>> = frontier
             .par_iter()
             .flat_map_iter(|n| steps.iter().map(move |s| (n, s)))
-            .map(|(n, s)| transition::<S>(n, s, &si, ex.faults))
+            .map(|(n, s)| transition::<S>(n, s, &ctx, ex.faults))
             .collect();
         let mut nextf: Vec<Node<S>> = vec![];
         let mut ntrans = 0u64;
@@ -506,7 +550,6 @@ pub fn bfs<S: Sch>(roots: Vec<Node<S>>, steps: &[Step], ex: &Explore, rep: &mut 
                             continue;
                         }
                         seen.insert(n.m.clone(), h);
-                        rep.viols.extend(cross_decode::<S>(&n));
                         if rep.stats.samples.len() < 6 {
                             rep.stats.sample(json!({"scheme": S::NAME, "init": *n.init, "history": n.hist.iter().map(|s| format!("{}@k{}", s.act.label(), s.signer)).collect::<Vec<_>>() }));
                         }
@@ -514,6 +557,11 @@ pub fn bfs<S: Sch>(roots: Vec<Node<S>>, steps: &[Step], ex: &Explore, rep: &mut 
                     }
                 }
             }
+        }
+        // per-state checks (C03 sweep, C04 round trips, reference decode, C11 cross-decode) once per new state
+        let sv: Vec<Vec<Viol>> = nextf.par_iter().map(|n| state_checks::<S>(n)).collect();
+        for v in sv {
+            rep.viols.extend(v);
         }
         rep.stats.transitions += ntrans;
         rep.stats.states += nextf.len() as u64;
@@ -642,7 +690,8 @@ pub fn c09_call_forms<S: Sch>() -> Vec<Act> {
 /// For every call form, every seq of `seqs` and every target in `lo..=hi`: a start record padded so
 /// that the *predicted result size* is exactly the target; then the ordinary lock-step transition.
 pub fn c09_sweep<S: Sch>(seqs: &[u64], lo: usize, hi: usize, siglens: &[usize], rep: &mut Report) {
-    let si = scheme_info::<S>();
+    let ctx = Ctx::<S>::new();
+    let si = ctx.si.clone();
     let forms = c09_call_forms::<S>();
     // start content: a value under every key the removers touch, so that removals shrink the record
     let start_extra: Vec<(Vec<u8>, Vec<u8>)> = vec![
@@ -659,49 +708,63 @@ pub fn c09_sweep<S: Sch>(seqs: &[u64], lo: usize, hi: usize, siglens: &[usize], 
         step: Step,
         target: usize,
     }
-    let mut jobs: Vec<Job> = vec![];
-    let mut unreachable = 0u64;
+    // one size table per (seq, call form, siglen, signer): pad length -> predicted result size
+    let mut combos: Vec<(u64, Act, usize, usize)> = vec![];
     for &seq in seqs {
         for act in &forms {
             for &sl in siglens {
                 for signer in 0..2usize {
-                    let step = Step { act: act.clone(), signer, siglen: sl };
-                    for target in lo..=hi {
-                        // search the pad length
-                        let mut found = None;
-                        for l in 0..300usize {
-                            let init = Init { label: format!("c09:seq{}:pad{l}", seq_label(seq)), seq, extra: { let mut e = start_extra.clone(); e.push((b"pad".to_vec(), rlp::enc_str(&vec![0x70u8; l]))); e }, pad_to: None };
-                            let Some(pairs) = init_pairs::<S>(&init, 64) else { continue };
-                            if record_size(&pairs, seq, 64) > 300 {
-                                break;
-                            }
-                            let st = MState { owner: 0, seq, pairs, siglen: 64 };
-                            let p = predict(&st, &step, &si);
-                            let Some(w) = p.would else { break };
-                            let sz = record_size(&w.pairs, w.seq, sl);
-                            if sz == target {
-                                found = Some(init);
-                                break;
-                            }
-                            if sz > target {
-                                break;
-                            }
-                        }
-                        match found {
-                            Some(init) => jobs.push(Job { init, step: step.clone(), target }),
-                            None => unreachable += 1,
-                        }
-                    }
+                    combos.push((seq, act.clone(), sl, signer));
                 }
             }
         }
     }
+    let per_combo: Vec<(Vec<Job>, u64)> = combos
+        .par_iter()
+        .map(|(seq, act, sl, signer)| {
+            let (seq, sl, signer) = (*seq, *sl, *signer);
+            let step = Step { act: act.clone(), signer, siglen: sl };
+            let mut by_size: std::collections::BTreeMap<usize, usize> = std::collections::BTreeMap::new();
+            for l in 0..300usize {
+                let init = Init { label: String::new(), seq, extra: { let mut e = start_extra.clone(); e.push((b"pad".to_vec(), rlp::enc_str(&vec![0x70u8; l]))); e }, pad_to: None };
+                let Some(pairs) = init_pairs::<S>(&init, 64) else { continue };
+                if record_size(&pairs, seq, 64) > 300 {
+                    break;
+                }
+                let st = MState { owner: 0, seq, pairs, siglen: 64 };
+                let p = predict(&st, &step, &si);
+                let Some(w) = p.would else { break };
+                let sz = record_size(&w.pairs, w.seq, sl);
+                by_size.entry(sz).or_insert(l);
+                if sz > hi {
+                    break;
+                }
+            }
+            let mut jobs = vec![];
+            let mut unreachable = 0u64;
+            for target in lo..=hi {
+                match by_size.get(&target) {
+                    Some(&l) => {
+                        let init = Init { label: format!("c09:seq{}:pad{l}", seq_label(seq)), seq, extra: { let mut e = start_extra.clone(); e.push((b"pad".to_vec(), rlp::enc_str(&vec![0x70u8; l]))); e }, pad_to: None };
+                        jobs.push(Job { init, step: step.clone(), target });
+                    }
+                    None => unreachable += 1,
+                }
+            }
+            (jobs, unreachable)
+        })
+        .collect();
+    let mut jobs: Vec<Job> = vec![];
+    let mut unreachable = 0u64;
+    for (j, u) in per_combo {
+        jobs.extend(j);
+        unreachable += u;
+    }
     let outs: Vec<(TOut<S>, usize, bool)> = jobs
         .par_iter()
         .filter_map(|j| {
-            let mut scratch = Report::default();
-            let node = make_init::<S>(&j.init, &mut scratch)?;
-            let o = transition::<S>(&node, &j.step, &si, false);
+            let node = make_init_light::<S>(&j.init)?;
+            let o = transition::<S>(&node, &j.step, &ctx, false);
             let ok = o.classes.iter().any(|c| c.starts_with("ok:"));
             Some((o, j.target, ok))
         })
@@ -825,4 +888,54 @@ pub fn cross_decode<S: Sch>(n: &Node<S>) -> Vec<Viol> {
         }
     }
     v
+}
+
+/// Checks that depend only on the canonical state, run once per new state.
+pub fn state_checks<S: Sch>(n: &Node<S>) -> Vec<Viol> {
+    let mut v = vec![];
+    let last = n.hist.last();
+    let label = last.map(|s| s.act.label()).unwrap_or_else(|| format!("initial:{}", n.init));
+    let rel = match last {
+        Some(s) if n.hist.len() >= 1 => {
+            // owner before the last step is unknown here; report the signer index instead
+            format!("signer=k{}", s.signer)
+        }
+        _ => "initial".to_string(),
+    };
+    let mut push = |prop: &'static str, clause: String, detail: String| {
+        v.push(Viol {
+            prop,
+            sig: format!("{prop}|{}|{label}|{rel}|{clause}", S::NAME),
+            what: format!("{} state reached by {label} from '{}'+{} steps: {clause} {detail}", S::NAME, n.init, n.hist.len().saturating_sub(1)),
+            rank: n.hist.len(),
+            replay: replay_json::<S>(&n.init, &n.init_hex, &n.hist, json!({"clause": clause, "detail": detail})),
+        });
+    };
+    for (p, clause, detail) in invariant_state::<S>(&n.enr, &n.obs) {
+        push(p, clause, detail);
+    }
+    for (l, p) in real::sweep(&n.enr, &PROBE_KEYS) {
+        push("C03", format!("{l} panics on the record held after the call"), p);
+    }
+    v.extend(cross_decode::<S>(n));
+    v
+}
+
+/// Initial state without the invariant evaluation (used where thousands of start records are needed).
+pub fn make_init_light<S: Sch>(init: &Init) -> Option<Node<S>> {
+    let siglen = 64;
+    let pairs = init_pairs::<S>(init, siglen)?;
+    let mut items = vec![rlp::enc_int(init.seq)];
+    for (k, v) in &pairs {
+        items.push(rlp::enc_str(k));
+        items.push(v.clone());
+    }
+    let rec = ref_sign_record::<S>(0, &items, &items, siglen);
+    match real::decode::<S::K>(&rec) {
+        Ok(Ok((e, _))) => {
+            let obs = real::observe(&e);
+            Some(Node { enr: e, m: MState { owner: 0, seq: init.seq, pairs, siglen }, obs, init: Arc::new(init.label.clone()), init_hex: Arc::new(hex::encode(&rec)), hist: vec![] })
+        }
+        _ => None,
+    }
 }
